@@ -421,7 +421,12 @@ def program_runs(ctx, tg, tga):
         w7 = dict(GridSize=32, PhaseSpaceShiftY=17.5, StepsPerTs=100, rotations=0.02, outstep=1, _out=False, _track=False)    # zerobin 33: just above the grid
         w8 = dict(GridSize=32, PhaseSpaceShiftY=-15.0, StepsPerTs=100, rotations=0.02, outstep=1, _out=False, _track=False)   # zerobin 0.5: row 0 would store index 2^32-1
         w9 = dict(GridSize=32, PhaseSpaceShiftY=14.0, StepsPerTs=100, rotations=0.02, outstep=1, _out=False, _track=False)    # zerobin 29.5: accepted
-        cfgs = [w1, w2, w3, w4, w5, w6, w7, w8, w9] + cfgs
+        # a lone bunch with empty buckets listed after / around it, machine-default spacing (far larger than the padded single-bunch
+        # length), wake on: the padded buffers must be sized by the number of BUCKETS, not of bunches (seeds C17-A, C17-C)
+        w10 = dict(GridSize=32, BunchCurrent=[1e-3, 0.0, 0.0], padding=2.0, RoundPadding=0, StepsPerTs=100, rotations=0.02, outstep=1, _out=True, _track=False)
+        w11 = dict(GridSize=16, BunchCurrent=[0.0, 3e-3, 0.0], padding=8.0, RoundPadding=1, StepsPerTs=100, rotations=0.02, outstep=1, _out=False, _track=False)
+        w12 = dict(GridSize=24, BunchCurrent=[3e-3, 0.0], padding=1.5, RoundPadding=0, StepsPerTs=100, rotations=0.02, outstep=1, _out=True, _track=False)
+        cfgs = [w1, w2, w3, w4, w5, w6, w7, w8, w9, w10, w11, w12] + cfgs
         mtext = []
         for i, cfg in enumerate(cfgs):
             n = cfg["GridSize"]
